@@ -337,4 +337,22 @@ theorem resolve_total {α : Type} {hsn maio : Int} {ma : List α} {hp : HoppingP
   obtain ⟨v, _, hv⟩ := py_resolve_total_aux k maio' ma' pnm fn (by omega) hn (by decide)
   exact ⟨v, hv⟩
 
+/-- `__init__` succeeds exactly for a non-empty MA and an HSN in `range(64)`
+(shape of `Props.C07.py_init_iff`) -/
+theorem pyInit_cases {α : Type} (hsn maio : Int) (ma : List α) :
+    (ma ≠ [] ∧ 0 ≤ hsn ∧ hsn < 64 →
+      pyInit hsn maio ma = .ok ⟨hsn, maio, ma, powNbinMask ma.length⟩) ∧
+    (¬ (ma ≠ [] ∧ 0 ≤ hsn ∧ hsn < 64) → pyInit hsn maio ma = .error .ValueError) := by
+  have hl : ma.length = 0 ↔ ma = [] := List.length_eq_zero_iff
+  constructor
+  · intro ⟨hne, h0, h64⟩
+    have hn0 : ma.length ≠ 0 := fun h => hne (hl.1 h)
+    have hr : ¬ ¬ (0 ≤ hsn ∧ hsn < 64) := fun h => h ⟨h0, h64⟩
+    simp only [pyInit, hn0, if_false, if_neg hr, pyPnm_eq]
+  · intro h
+    by_cases hn0 : ma.length = 0
+    · simp only [pyInit, hn0, if_true]
+    · have hr : ¬ (0 ≤ hsn ∧ hsn < 64) := fun hr => h ⟨fun e => hn0 (hl.2 e), hr⟩
+      simp only [pyInit, hn0, if_false, hr, not_false_eq_true, if_true]
+
 end OsmoVerif.Hopping
